@@ -874,6 +874,30 @@ impl<'a> Engine<'a> {
                     _ => r.inconclusive(&format!("reference codec itself is influenced by a suffix on {} — harness error", def.key)),
                 }
             }
+            // the library's *own* serialisation of the value, where it differs from the reference encoding (whether it
+            // may differ is C03's subject): a packet all the same - whatever is appended comes back untouched and the
+            // decoded value is the one decoded without it
+            if let Some(Ok(built)) = sut.build(&def.key, v) {
+                if built.enc != b && !built.enc.is_empty() {
+                    if let Outcome::Ok { debug: d0, rest: 0, .. } = sut.decode(&def.key, &built.enc) {
+                        r.count("suffix_cases_on_own_serialisation", 1);
+                        for s in [vec![0x00u8], vec![0xff], b"continued text".to_vec(), built.enc.clone(), vec![0x20; 300]] {
+                            let mut input = built.enc.clone();
+                            input.extend_from_slice(&s);
+                            r.case(fnv(&input) ^ fnv(def.key.as_bytes()) ^ 0x5aff, true);
+                            let ok = matches!(sut.decode(&def.key, &input), Outcome::Ok { debug, rest, .. } if debug == d0 && rest == s.len());
+                            if !ok {
+                                r.violation(
+                                    &format!("{prop_name} {}: bytes appended to the library's own serialisation influence the result", def.key),
+                                    &format!("serialise(v) = {} bytes (head {}); decoded alone it gives the value back with nothing left; with {} bytes appended the result differs or the remainder is not those bytes", built.enc.len(), hex(&built.enc[..built.enc.len().min(8)]), s.len()),
+                                    json!({"type": def.key, "value": val_to_json(v), "own_serialisation_head": hex(&built.enc[..built.enc.len().min(24)]), "own_serialisation_len": built.enc.len(), "suffix_len": s.len(), "suffix_head": hex(&s[..s.len().min(16)])}),
+                                );
+                                break;
+                            }
+                        }
+                    }
+                }
+            }
         }
         // nested containers: put attractive bytes right behind a length-prefixed element, inside the parent
         let Payload::Struct(root) = &tree.payload else { return };
